@@ -6,7 +6,7 @@ from . import progs, evalspec, speceval
 from .c07 import rnd_tree, HIDS, GLOBALS, RET, n
 
 # operator handlers: prefix `!!`, infix `<>`, postfix `+++` (symbolic, prefix-closed with the built-ins) as scripted handlers 22, 23, 24
-OPH = {"!!": ("P", 22), "<>": ("I", 23), "+++": ("S", 24)}
+OPH = {"!!": ("P", 22), "<>": ("I", 23), "+++": ("S", 24), "<~": ("I-setter", 25)}
 
 def tree_with_ops(rng, depth):
     t = rnd_tree(rng, depth)
@@ -14,6 +14,7 @@ def tree_with_ops(rng, depth):
     if r < 0.25: return ("un", "!!", t)
     if r < 0.5: return ("bin", "<>", t, rnd_tree(rng, 1))
     if r < 0.65: return ("post", ("ref", "v"), "+++")
+    if r < 0.8: return ("bin", "<~", ("ref", rng.choice(["v", "w"])), t)
     return t
 
 class Machine2(speceval.Machine):
@@ -23,6 +24,12 @@ class Machine2(speceval.Machine):
         if t[0] == "bin" and t[1] == "<>":
             a = self.ev(t[2]); b = self.ev(t[3]); return self.call(23, [a, b])
         if t[0] == "post" and t[2] == "+++": return self.call(24, [self.ev(t[1])])
+        if t[0] == "bin" and t[1] == "<~":
+            a = self.ev(t[2]); b = self.ev(t[3])
+            if t[2][0] != "ref": raise speceval.Stop("ERR")
+            v = self.call(25, [a, b])
+            self.ctx[t[2][1]] = ("var", v)
+            return ("N",)
         return super().ev(t)
 
 def run2(stmts, ctx, handlers):
@@ -49,19 +56,20 @@ class P:
         self.skipped = 0
 
     def generate(self, tier, rng):
-        PT = dict(progs.prec_table()); PT["<>"] = (105, False)
+        PT = dict(progs.prec_table()); PT["<>"] = (105, False); PT["<~"] = (20, True)
         ntrees = 120 if tier == "quick" else 8000
         items = []
         # exhaustive small programs: every handler kind alone, by call / bare name
         small = [("ref", "f0"), ("call", "f0", [("lit", "1")]), ("call", "g0", [("lit", "1")]), ("un", "!!", ("lit", "1")),
                  ("bin", "<>", ("lit", "1"), ("lit", "2")), ("post", ("lit", "1"), "+++"),
-                 ("bin", "=", ("ref", "v"), ("ref", "f0")), ("list", [("ref", "f0"), ("ref", "f1")])]
+                 ("bin", "=", ("ref", "v"), ("ref", "f0")), ("list", [("ref", "f0"), ("ref", "f1")]),
+                 ("bin", "<~", ("ref", "v"), ("lit", "3"))]
         progs_list = [[t] for t in small] + [[("bin", "=", ("ref", "w"), ("lit", "9")), t, ("bin", "=", ("ref", "v"), ("lit", "8"))] for t in small]
         for _ in range(ntrees):
             progs_list.append([tree_with_ops(rng, rng.choice([2, 3])) for _ in range(rng.choice([1, 2, 3]))])
         for stmts in progs_list:
             handlers = {}
-            for hid in list(HIDS.values()) + list(GLOBALS.values()) + [22, 23, 24]:
+            for hid in list(HIDS.values()) + list(GLOBALS.values()) + [22, 23, 24, 25]:
                 handlers[hid] = ("count", [("ret", rng.choice(RET)) for _ in range(rng.randint(1, 3))])
             ctx = {"v": ("var", n(4))}
             for name, hid in HIDS.items(): ctx[name] = ("func", hid)
@@ -82,7 +90,7 @@ class P:
         src = "; ".join(progs.render_min(s, PT) for s in stmts)
         ops = ["H:%d:%s" % (hid, speceval.to_proto_script(s)) for hid, s in sorted(handlers.items())]
         ops += ["REGF:%s:%d" % (hx(nm), hid) for nm, hid in GLOBALS.items()]
-        ops += ["REGP:%s:22" % hx("!!"), "REGI:%s:%x:0:0:23" % (hx("<>"), 105), "REGS:%s:24" % hx("+++")]
+        ops += ["REGP:%s:22" % hx("!!"), "REGI:%s:%x:0:0:23" % (hx("<>"), 105), "REGS:%s:24" % hx("+++"), "REGI:%s:%x:1:1:25" % (hx("<~"), 20)]
         for k, v in ctx.items():
             ops.append("CV:1:%s:%s" % (hx(k), speceval.to_proto_value(v[1])) if v[0] == "var" else "CF:1:%s:%d" % (hx(k), v[1]))
         nset = len(ops)
